@@ -120,6 +120,27 @@ func checkTriple(t *testing.T, w *lw, ll, gl, el int) {
 			failf(t, tripleFail{ll, gl, el, "WithLevel+sampler", fmt.Sprintf("sampler received level %d", s.last)})
 		}
 	}
+	// the sampling switch: off = the sampler is neither consulted nor obeyed; back on = as before,
+	// whatever the global level was when the switch was thrown
+	rej := &countSampler{admit: false}
+	lr := base.Sample(rej)
+	zerolog.DisableSampling(true)
+	w.n = 0
+	lr.WithLevel(zerolog.Level(el)).Msg("m")
+	if (w.n == 1) != exp || rej.calls != 0 {
+		zerolog.DisableSampling(false)
+		failf(t, tripleFail{ll, gl, el, "DisableSampling(true)", fmt.Sprintf("writes=%d (want written=%v), rejecting sampler consulted %d times (want 0)", w.n, exp, rej.calls)})
+	}
+	zerolog.DisableSampling(false)
+	w.n = 0
+	lr.WithLevel(zerolog.Level(el)).Msg("m")
+	wantCalls := 0
+	if exp {
+		wantCalls = 1
+	}
+	if w.n != 0 || rej.calls != wantCalls {
+		failf(t, tripleFail{ll, gl, el, "DisableSampling(false)", fmt.Sprintf("after switching sampling back on: writes=%d (want 0: the sampler rejects), sampler consulted %d times (want %d)", w.n, rej.calls, wantCalls)})
+	}
 }
 
 func nontrivialTriple(ll, gl, el int) bool {
